@@ -42,6 +42,8 @@ def universe(seed, quick, nsim=None):
 
 
 def freeze(sch):
+    if isinstance(sch, str):
+        return 'RAW:' + sch
     return json.dumps(SC.model_state(sch), sort_keys=True)
 
 
@@ -82,9 +84,10 @@ def check_pair(a_sch, b_sch):
         res2 = delta.apply(full_a, ctx2)
         got2 = res2.get_top_schema()
         d = SC.proj_diff(SC.proj(got2), want)
+        path2 = None
         if d:
-            bad.append('delta_schemas(A, B) applied to A does not produce B: '
-                       + '; '.join(d[:3]))
+            path2 = ('delta_schemas(A, B) applied to A does not produce B: '
+                     + '; '.join(d[:3]))
         text = s_ddl.ddl_text_from_delta(full_a, res2, delta)
         if text.strip():
             res3 = s_ddl.apply_ddl_script(text, schema=full_a)
@@ -100,6 +103,14 @@ def check_pair(a_sch, b_sch):
         if not bad and len(list(resid.get_subcommands())) > 0:
             bad.append('delta_schemas(result, B) is not empty: '
                        + s_ddl.ddl_text_from_delta(res2, full_b, resid)[:200])
+        # Applying the raw command tree is not how the system executes a
+        # migration (it always goes through the DDL syntax tree, where renames
+        # of callables are canonicalised); a mismatch on this path alone is
+        # recorded but is not a verdict.
+        if path2 and bad:
+            bad.append(path2)
+        elif path2:
+            return [], 'RAW-DELTA-ONLY ' + path2
     except st['errors'].EdgeDBError as e:
         bad.append(f'diff / replay refused: {type(e).__name__}: {str(e)[:160]}')
     return bad, None
@@ -160,6 +171,8 @@ def run_c02(tier, seed, rep):
     max2s = sorted(max2, key=lambda h: -len(h))[:8 if quick else 300]
     pairs += pairs_from(H.sub(by2, max2s), max2s, rnd,
                         80 if quick else 6000, 30 if quick else 1500)
+    import schema_features as SF
+    pairs += SF.pairs()
     n = 0
     incon = []
     with mp.Pool(lib.NCPU) as pool:
@@ -264,6 +277,8 @@ def run_c10(tier, seed, rep):
     rnd = random.Random(seed)
     max2s = sorted(max2, key=lambda h: -len(h))[:40 if quick else 1500]
     chains = chains_from(H.sub(by2, max2s), max2s, rnd, 48 if quick else 2500)
+    import schema_features as SF
+    chains += SF.chains()
     n = 0
     incon = []
     with mp.Pool(lib.NCPU) as pool:
@@ -386,6 +401,8 @@ def run_c03(tier, seed, rep):
     rnd = random.Random(seed)
     schemas = distinct_states(by, rnd, 16 if quick else 400, False) + \
         distinct_states(by2, rnd, 40 if quick else 2500)
+    import schema_features as SF
+    schemas += SF.all_schemas()
     n = 0
     incon = []
     with mp.Pool(lib.NCPU) as pool:
@@ -415,20 +432,54 @@ def run_c03(tier, seed, rep):
 
 
 # ------------------------------------------------------------------ C11
+def raw_orders(sdl, rnd, limit):
+    """declaration orders of a hand-written SDL document: the module blocks
+    and the declarations inside every block are permuted on the syntax tree
+    and printed back (unsorted)"""
+    st = SC.S()
+    from edb.edgeql import parser as qlparser, codegen as qlcodegen
+    tree = qlparser.parse_sdl(sdl)
+    orig = [(m, list(m.declarations)) for m in tree.declarations]
+    out = [sdl]
+    for k in range(limit - 1):
+        mods = [m for m, _ in orig]
+        if k == 0:
+            mods = list(reversed(mods))
+            for m, ds in orig:
+                m.declarations = list(reversed(ds))
+        else:
+            rnd.shuffle(mods)
+            for m, ds in orig:
+                m.declarations = rnd.sample(ds, len(ds))
+        tree.declarations = mods
+        out.append(qlcodegen.generate_source(tree, sdlmode=True, unsorted=True,
+                                             pretty=False))
+    uniq = []
+    for t in out:
+        if t not in uniq:
+            uniq.append(t)
+    return uniq
+
+
 def check_permutations(sch, rnd, limit):
     st = SC.S()
-    names = [t for t in sorted(sch) if sch[t]['ex']]
-    n = len(names)
-    perms = list(itertools.permutations(range(n)))
-    if len(perms) > limit:
-        perms = [perms[0]] + rnd.sample(perms[1:], limit - 1)
-    results = []
-    for k, perm in enumerate(perms):
-        flip = (k % 2 == 1)
+    if isinstance(sch, str):
+        sdls = raw_orders(sch, rnd, limit)
+    else:
+        names = [t for t in sorted(sch) if sch[t]['ex']]
+        n = len(names)
+        perms = list(itertools.permutations(range(n)))
+        if len(perms) > limit:
+            perms = [perms[0]] + rnd.sample(perms[1:], limit - 1)
+        sdls = []
+        for k, perm in enumerate(perms):
+            flip = (k % 2 == 1)
 
-        def ptr_order(t, ps, flip=flip):
-            return list(reversed(ps)) if flip else ps
-        sdl = SC.render_sdl(sch, order=perm, ptr_order=ptr_order)
+            def ptr_order(t, ps, flip=flip):
+                return list(reversed(ps)) if flip else ps
+            sdls.append(SC.render_sdl(sch, order=perm, ptr_order=ptr_order))
+    results = []
+    for sdl in sdls:
         try:
             _, real = build(sdl)
             results.append((sdl, 'ok', SC.proj(real)))
@@ -480,6 +531,8 @@ def run_c11(tier, seed, rep):
     schemas = [s for s in distinct_states(by2, rnd, 400 if quick else 6000)
                if sum(1 for t in s.values() if t['ex']) >= 2]
     schemas = schemas[:40 if quick else 1500]
+    import schema_features as SF
+    schemas += SF.all_schemas()
     n = nperm = 0
     incon = []
     with mp.Pool(lib.NCPU) as pool:
